@@ -133,12 +133,11 @@ class GateReplacer(Visitor):
         new_parameters = {
             name: self.visit(param) for name, param in gate.parameters.items()
         }
-        if new_parameters:
-            # Calling the definition checks the substituted arguments
-            # against the gate's parameter kinds.
-            new_gate = gate.gate_def(**new_parameters)
-        else:
-            new_gate = gate.gate_def()
+        # Calling the definition checks the substituted arguments against
+        # the gate's parameter kinds. The statement keeps its arguments in
+        # the definition's order, so they are passed by position (a
+        # parameter may be called anything, e.g. `self`).
+        new_gate = gate.gate_def(*new_parameters.values())
         return replace_gate(new_gate, self.macros)
 
     def visit_Parameter(self, param: Parameter):
